@@ -89,3 +89,61 @@ def screened_result(desc, realised, reasons):
 
 def build_ref(desc):
     return Ref(desc)
+
+
+# --------------------------------------------------------------------------------------
+# process-history independence: a *sibling* model (same variable names, function names
+# and signatures; other function bodies, grids and parameters) is pushed through the same
+# API calls right before the judged model.  Nothing of the sibling is judged; the judged
+# model is compared with the reference as always, so any state that leaks from one model
+# to the next inside a process (caches keyed by names, mutable defaults, memoised grids)
+# becomes a mismatch of the judged model.
+# --------------------------------------------------------------------------------------
+def sibling_desc(desc):
+    import copy
+
+    sib = copy.deepcopy(desc)
+    scalar = set(sib.get("scalar_functions") or ())
+    for f in sib["functions"]:
+        name, args, expr = f
+        if name.endswith("_filter") or name.endswith("_constraint") or name in scalar:
+            continue
+        if name == "utility":
+            f[2] = f"1.37 * ({expr}) + 0.11"
+        elif not name.startswith("next_"):
+            f[2] = f"0.83 * ({expr}) + 0.05"
+    for _, sp in sib["states"] + sib["choices"]:
+        if sp["kind"] == "lin":
+            sp["start"] = round(sp["start"] + 0.173, 4)
+            sp["stop"] = round(sp["stop"] + 0.291, 4)
+        elif sp["kind"] == "log":
+            sp["start"] = round(sp["start"] * 1.07, 4)
+            sp["stop"] = round(sp["stop"] * 1.11, 4)
+    rng = np.random.default_rng(12345)
+    sib["params"] = gen.perturb_params(rng, sib["params"], sib.get("frozen_params", ()))
+    return sib
+
+
+def run_sibling(desc, *, solve=True, simulate=False, targets=None, n_agents=3, counters=None):
+    """Build and run the sibling model; every failure is ignored (it is not under test)."""
+    try:
+        sib = sibling_desc(desc)
+        ref = Ref(sib)
+        model = dsl.build_lcm_model(sib)
+        p = dsl.lcm_params(sib["params"])
+        if solve and not simulate:
+            f, _ = get_lcm_function(model, "solve")
+            f(p)
+        if simulate:
+            f, _ = get_lcm_function(model, "solve_and_simulate")
+            rng = np.random.default_rng(7)
+            init = gen.gen_initial_states(rng, ref, n_agents, off_grid=0.3, out_of_range=0.0)
+            kw = {"additional_targets": list(targets)} if targets else {}
+            f(p, initial_states=jnp_states(init), seed=3, **kw)
+        if counters is not None:
+            counters["sibling_models_run_before"] = counters.get("sibling_models_run_before", 0) + 1
+        return True
+    except Exception:  # noqa: BLE001
+        if counters is not None:
+            counters["sibling_models_failed"] = counters.get("sibling_models_failed", 0) + 1
+        return False
